@@ -2306,6 +2306,16 @@ def h_sum(ev, pos, kw, st, node):
     return Num(sym.mk_sum(v.r, v.length))
 
 
+def h_dot(ev, pos, kw, st, node):
+    """dot / inner product of two 1-D arrays of one extent: the sum of the element-wise products"""
+    if len(pos) != 2 or kw:
+        return None
+    a, b = ev.as_num(pos[0], True), ev.as_num(pos[1], True)
+    if a is None or b is None or a.length is None or b.length is None or not (a.length == b.length):
+        return None
+    return Num(sym.mk_sum(a.r * b.r, a.length))
+
+
 def h_diff(ev, pos, kw, st, node):
     v = ev.as_num(_arg(pos, kw, 0, 'a'), True)
     if v is None or v.length is None or len(pos) > 1 or (set(kw) - {'a'}):
@@ -2777,7 +2787,7 @@ LIB_HANDLERS = {
     'numpy.add': h_binary('add'), 'numpy.subtract': h_binary('subtract'), 'numpy.multiply': h_binary('multiply'),
     'numpy.divide': h_binary('divide'), 'numpy.true_divide': h_binary('true_divide'), 'numpy.square': h_square, 'numpy.negative': h_negative,
     'numpy.shape': h_shape, 'numpy.size': h_size, 'numpy.where': lambda ev, pos, kw, st, node: (h_where_ew(ev, pos, kw, st, node) if len(pos) == 3 else h_nonzero_tuple(ev, pos, kw, st, node)), 'numpy.nonzero': h_nonzero_tuple, 'numpy.flatnonzero': h_flatnonzero,
-    'numpy.sum': h_sum, 'numpy.diff': h_diff, 'numpy.abs': h_abs, 'numpy.absolute': h_abs, 'numpy.fabs': h_abs,
+    'numpy.sum': h_sum, 'numpy.dot': h_dot, 'numpy.inner': h_dot, 'numpy.vdot': h_dot, 'numpy.diff': h_diff, 'numpy.abs': h_abs, 'numpy.absolute': h_abs, 'numpy.fabs': h_abs,
     'numpy.mean': _reduce('Mean'), 'numpy.std': h_std, 'numpy.var': h_var, 'numpy.min': _reduce('Min'),
     'numpy.max': _reduce('Max'), 'numpy.amin': _reduce('Min'), 'numpy.amax': _reduce('Max'),
     'numpy.sqrt': h_sqrt, 'numpy.power': h_power, 'numpy.isscalar': h_isscalar, 'math.sqrt': h_sqrt, 'math.fabs': h_abs,
@@ -2809,6 +2819,21 @@ def b_int(ev, pos, kw, st, node):
     if v is None or v.length is not None:
         return None
     return Num(sym.mk_int(v.r))
+
+
+def b_round(ev, pos, kw, st, node):
+    """round(x[, ndigits]) of a scalar: an opaque numeric function of x (Python rounds halves to even); folded for known numbers"""
+    v = ev.as_num(pos[0]) if pos else None
+    if v is None or v.length is not None or kw or len(pos) > 2:
+        return None
+    nd = ev.as_num(pos[1]) if len(pos) == 2 else None
+    if len(pos) == 2 and (nd is None or nd.length is not None):
+        return None
+    if v.r.is_const() and (nd is None or nd.r.is_const()):
+        c = v.r.const_value()
+        out = round(c) if nd is None else round(c, int(nd.r.const_value()))
+        return Num(C(out))
+    return Num(sym.A('Round', v.r) if nd is None else sym.A('Round', v.r, nd.r))
 
 
 def b_float(ev, pos, kw, st, node):
@@ -2993,7 +3018,7 @@ def b_exc(name):
     return h
 
 
-BUILTIN_HANDLERS = {'setattr': b_setattr, 'slice': b_slice, 'len': b_len, 'int': b_int, 'float': b_float, 'abs': b_abs, 'min': _minmax('min'), 'max': _minmax('max'),
+BUILTIN_HANDLERS = {'setattr': b_setattr, 'slice': b_slice, 'len': b_len, 'int': b_int, 'round': b_round, 'float': b_float, 'abs': b_abs, 'min': _minmax('min'), 'max': _minmax('max'),
                     'range': b_range, 'zip': b_zip, 'map': b_map, 'enumerate': b_enumerate, 'isinstance': b_isinstance,
                     'getattr': b_getattr, 'next': b_next, 'iter': b_iter, 'bool': b_bool, 'list': b_list, 'dict': b_dict, 'divmod': b_divmod, 'vars': b_vars}
 for _n in ('ValueError', 'IndexError', 'OSError', 'TypeError', 'KeyError', 'AttributeError', 'Exception', 'RuntimeError'):
